@@ -53,6 +53,30 @@ from .language_detector import detect_language
 
 logger = logging.getLogger(__name__)
 
+
+def _verif_tap(where: str, rule: str | None, file_path: object) -> None:
+    """Verification hook (off unless THAILINT_VERIF is set): record a swallowed exception."""
+    if not os.environ.get("THAILINT_VERIF"):
+        return
+    log_path = os.environ.get("THAILINT_VERIF_FAILLOG")
+    if not log_path:
+        return
+    import json  # pylint: disable=import-outside-toplevel
+    import sys  # pylint: disable=import-outside-toplevel
+
+    exc = sys.exc_info()[1]
+    record = {
+        "where": where,
+        "rule": rule,
+        "file": str(file_path),
+        "exc_type": type(exc).__name__,
+        "exc_msg": str(exc)[:300],
+        "pid": os.getpid(),
+    }
+    with open(log_path, "a", encoding="utf-8", errors="backslashreplace") as handle:
+        handle.write(json.dumps(record) + "\n")
+
+
 # Default max workers for parallel processing (capped to avoid resource contention)
 DEFAULT_MAX_WORKERS = 8
 
@@ -171,6 +195,7 @@ def _lint_file_worker(args: tuple[Path, Path, dict]) -> list[dict]:
         # Convert to dicts for pickling
         return [v.to_dict() for v in violations]
     except Exception:
+        _verif_tap("_lint_file_worker", None, file_path)
         logger.exception("Worker error processing file: %s", file_path)
         return []
 
@@ -344,6 +369,7 @@ class Orchestrator:  # thailint: ignore[srp]
             # Re-raise configuration validation errors (these are user-facing)
             raise
         except Exception:
+            _verif_tap("_safe_check_rule", rule.rule_id, context.file_path)
             logger.exception("Rule %s failed on %s", rule.rule_id, context.file_path)
             return []
 
@@ -420,6 +446,7 @@ class Orchestrator:  # thailint: ignore[srp]
         try:
             return [Violation.from_dict(d) for d in future.result()]
         except Exception:
+            _verif_tap("_extract_violations_from_future", None, "")
             logger.exception("Error extracting violations from worker future")
             return []
 
